@@ -88,6 +88,38 @@ func c12Wrappers(c *h.Ctx, cvs []curveT) {
 			c.Violation("a BlindKeySign signature verifies (crypto/ecdsa) under the key blinded with the empty context", det)
 		}
 	}
+	// consecutive derivations whose (blind key, context) pairs differ only in WHERE the boundary between the two lies
+	// (the last byte of the blind key moved to the front of the context, and the reverse): the 0x00 separator of the
+	// derivation makes them different inputs; each factor against the Coq hash_to_field
+	for _, cv := range cvs {
+		curve := cv.c
+		name := curve.Params().Name
+		for rep := 0; rep < 3; rep++ {
+			kb := rnd(c, scalarLen(curve))
+			kb[0] &= 0x3f
+			if kb[len(kb)-1] == 0 {
+				kb[len(kb)-1] = 1
+			}
+			ctx := rnd(c, 1+c.Rng.Intn(20))
+			pairs := [][2][]byte{{kb, ctx}, {kb[:len(kb)-1], cat(kb[len(kb)-1:], ctx)}, {cat(kb, ctx[:1]), ctx[1:]}, {kb, ctx}, {cat(kb, []byte{0}), ctx}, {kb, cat([]byte{0}, ctx)}}
+			for pi, pr := range pairs {
+				bk, err := ecdsa.CreateKey(curve, pr[0])
+				if err != nil || bk.D.Sign() == 0 {
+					continue
+				}
+				f, err := ecdsa.VerifHashBlind(curve, bk, pr[1])
+				if err != nil {
+					c.Violation("hashBlind fails on a supported curve", map[string]any{"curve": name})
+					continue
+				}
+				c.Case(name+":blind:factor:boundary-shifted-pairs", true, "ecdsa_blind_factor", [][]byte{{cv.id}, pr[0], pr[1]}, [][]byte{f.Bytes()})
+				m := c.Model("ecdsa_blind_factor", []byte{cv.id}, pr[0], pr[1])
+				if new(big.Int).SetBytes(m[0]).Cmp(f) != 0 {
+					c.Violation("the blinding factor is hash_to_field(blind-key bytes || 0x00 || context), also right after a derivation for a pair with the same concatenation", map[string]any{"curve": name, "pair": pi, "blind_key": h.Hex(pr[0]), "context": h.Hex(pr[1])})
+				}
+			}
+		}
+	}
 	// an unsupported curve: same parameters as P-256 under another name
 	params := *elliptic.P256().Params()
 	params.Name = "P-256-under-another-name"
